@@ -76,6 +76,11 @@ def data_stores(pa):
 _ROLES = {}
 
 
+class RolesUnknown(Undecided):
+    """The buffer is not organised into the helper roles the symbolic rules extend over (scan / resynchroniser / drop):
+    those rules then fall back to the end-to-end catalogue (process_e2e)."""
+
+
 def roles(p):
     """The buffer's private helpers, identified by what they do rather than by name (helpers they call count as theirs):
        FIND   - the method that (directly or through private helpers) hands a prefix to IndiMessage.from_string,
@@ -145,7 +150,7 @@ def roles(p):
     # innermost: does not call another candidate of the same kind
     resync = [fi for fi in tagged if not any(byname[c] in tagged for c in closure(fi))]
     if len(find) != 1 or len(resync) != 1:
-        raise Undecided(f"buffer helper roles not identified (from_string callers: {[f.name for f in find]}, resynchronisers: {[f.name for f in resync]})")
+        raise RolesUnknown(f"buffer helper roles not identified (from_string callers: {[f.name for f in find]}, resynchronisers: {[f.name for f in resync]})")
     drop = [fi for fi in cand if fi is not resync[0] and fi is not find[0] and resync[0].name in own_calls(fi) and stores_data(fi)]
     r = {"FIND": find[0].name, "RESYNC": resync[0].name, "DROP1": drop[0].name if len(drop) == 1 else None}
     _ROLES[key] = r
@@ -1331,3 +1336,147 @@ def check_own_buffer(ctx, rule):
         init = ci.find_method("__init__")
         ctx.check(verdict is None, rule, f"{init.short}[{ci.name}]", "every connection constructs its own receive buffer", f"two {ci.name} connections constructed one after the other hold the SAME receive buffer object (a default argument or class attribute evaluated once): the bytes of different peers are framed as one text - a write split over two reads is corrupted by another connection's data, and what a dead connection left unfinished blocks the others", fi=init, text=f"shared-buffer:{ci.name}", witness=f"{ci.name}(...); {ci.name}(...)")
     ctx.floor(rule, "connection classes owning a receive buffer", n, 3)
+
+
+# ------------------------------------------------------------------ end-to-end catalogue (shape-independent)
+_G = "<getProperties version='1.7'/>"
+_S = "<setLightVector device='d' name='n'><oneLight name='a'>Ok</oneLight></setLightVector>"
+_L = "<oneLight name='a'>Ok</oneLight>"
+E2E_STREAMS = [
+    "", "   ", "junk without any tag", _G, _S, _G + _S, _S + _G + _G, "junk" + _G, _G + "junk", "x<y " + _G, ">>" + _G + ">",
+    _G + "<foo/>" + _S, "<foo a='1'>" + _G, "<foo/>", "<bar>text</bar>" + _S, _S + "\n" + _G + "\n", "<?xml version='1.0'?>\n" + _G,
+    "<getPropertiesX/>" + _G, _G[:10], _G + _S[:20], _S[:-1], "<foo a='1' b='2'>never closed " + "x" * 30, _L + _G,
+    "<setLightVector device='d' name='n'>" + "<oneLight name='a'>Ok</oneLight>" * 3, _G + "<" , "<<<" + _S + "<", "<foo>" + _G + "</foo>",
+    '<oneLight name="a">8" x > y</oneLight>' + _G, "<getProperties version='1.7'\n device='d'\n/>" + _S, "<getProperties<oneLight name='a'>Ok</oneLight>",
+]
+E2E_THRESHOLDS = [None, 2048, 8]
+
+
+def _root_tag(text):
+    import xml.etree.ElementTree as _ET
+    try:
+        return _ET.fromstring(text).tag
+    except _ET.ParseError:
+        return None
+
+
+def e2e_oracle(text, threshold):
+    """What framing must do with one buffer content (reference written from the property, independent of the code's
+    organisation): resynchronise on the first known start tag (else the last '<', else nothing); repeatedly take the first
+    '>'-terminated well-formed prefix, deliver it if it is a message of a known kind, remove exactly it and
+    resynchronise; when nothing is complete, give up one leading character at a time while the text is longer than the
+    threshold, else wait.  -> (delivered prefixes, text retained)."""
+    out = []
+    d = resync_oracle(text)
+    while d:
+        end = find_oracle(d) if len(d) > 1 else None
+        if end is None:
+            if threshold is not None and len(d) > threshold:
+                d = resync_oracle(d[1:])
+                continue
+            break
+        pfx, d = d[:end], resync_oracle(d[end:])
+        if _root_tag(pfx) in CAT_TAGS:
+            out.append(pfx)
+    return out, d
+
+
+def process_e2e(ctx):
+    """Buffer.process evaluated as a whole (constant evaluation of the buffer module on a buffer built by the real
+    constructor; ElementTree folded on constants; the message constructor replaced by 'known root tag or raise') on the
+    catalogue E2E_STREAMS x E2E_THRESHOLDS, compared with e2e_oracle.  -> ("holds" | "violated" | "undecided", detail, n)"""
+    cached = getattr(ctx, "_e2e", None)
+    if cached is not None:
+        return cached
+    from ..absint import _Raise
+    p = ctx.p
+    Bc = buf_cls(p)
+    f = Bc.find_method("process")
+    TH = "max_buffer_size_before_frontal_cleanup"
+    n = 0
+    res = None
+    for text in E2E_STREAMS:
+        for th in E2E_THRESHOLDS:
+            n += 1
+            got = {}
+
+            def eff(it, callee, args, kwargs, ev):
+                if isinstance(callee, Fn) and callee.fi.name == "from_xml" and callee.fi.module.name.startswith("indi.message") and args:
+                    el = args[0]
+                    src = el.attrs.get("__text__") if isinstance(el, Obj) else None
+                    tag = _root_tag(src.v) if isinstance(src, Const) else None
+                    if tag in CAT_TAGS:
+                        return Obj(None, {"__closed__": Const(True)}, label="msg:" + (src.v if isinstance(src.v, str) else src.v.decode("latin1")))
+                    x = Term("exc", "Exception", "Invalid message")
+                    it.emit("raise", ev.node, value=x, implicit=True)
+                    raise _Raise(x, ev.node)
+                return None
+
+            def run(it: Interp, text=text, th=th, got=got):
+                o = constructed_buffer(it, p, text)
+                if TH not in o.attrs:
+                    raise Undecided(f"a constructed buffer has no attribute {TH}")
+                o.attrs[TH] = Const(th)
+                cb = Obj(None, label="<consumer>")
+                k = len(it.events)
+                it.run_function(Fn(f, o), [cb], {})
+                got["delivered"] = [e.data["args"][0].label[4:] if e.data["args"] and isinstance(e.data["args"][0], Obj) and e.data["args"][0].label.startswith("msg:") else "?" for e in it.events[k:] if e.kind == "call" and e.data.get("callee") is cb]
+                left = buffer_text(it, p, o)
+                got["left"] = left.v if isinstance(left, Const) else "?"
+                return Const(None)
+
+            try:
+                paths = explore(p, run, {"inline": lambda fi, node: fi.cls is Bc or fi.module is Bc.module or (fi.name == "from_string" and fi.module.name.startswith("indi.message")), "foreign_model": _et_model, "call_effect": eff, "max_while": 400, "max_for": 40, "max_steps": 400000, "max_depth": 12})
+            except Undecided as u:
+                res = ("undecided", f"processing the constant buffer {text[:40]!r} (threshold {th}) is not decided by constant evaluation: {u}", n)
+                break
+            ctx.paths_enumerated += len(paths)
+            if len(paths) != 1 or "delivered" not in got and paths[0].outcome == "return":
+                res = ("undecided", f"processing the constant buffer {text[:40]!r} (threshold {th}) is not decided by constant evaluation ({len(paths)} paths)", n)
+                break
+            want = e2e_oracle(text, th)
+            if paths[0].outcome != "return":
+                res = ("violated", f"processing the buffer {text[:60]!r} (threshold {th}) raises {show(paths[0].value)[:50] if paths[0].value is not None else ''}; expected deliveries {[w[:30] for w in want[0]]}", n)
+                break
+            if (got["delivered"], got["left"]) != want:
+                res = ("violated", f"processing the buffer {text[:60]!r} (threshold {th}) delivers {[g[:30] for g in got['delivered']]} and retains {got['left'][:40]!r}; framing requires deliveries {[w[:30] for w in want[0]]} and retained text {want[1][:40]!r}", n)
+                break
+        if res is not None:
+            break
+    if res is None:
+        res = ("holds", f"{n} buffer contents x thresholds processed end to end: deliveries and retained text as framing requires", n)
+    ctx._e2e = res
+    return res
+
+
+def with_e2e_fallback(fn):
+    """A rule that extends over all inputs through the buffer's helper roles: when this buffer is not organised into those
+    roles, the rule is decided on the end-to-end catalogue instead (and says so)."""
+    import functools
+
+    @functools.wraps(fn)
+    def w(ctx, rule, *a, **k):
+        try:
+            return fn(ctx, rule, *a, **k)
+        except RolesUnknown as u:
+            verdict, detail, n = process_e2e(ctx)
+            f = buf_cls(ctx.p).find_method("process")
+            if verdict == "holds":
+                ctx.holds(rule, f.short, f"decided on the end-to-end catalogue only ({detail}); the extension to all inputs through the helper roles is not available for a buffer organised like this one ({u})", fi=f)
+            elif verdict == "violated":
+                ctx.violated(rule, f.short, detail, fi=f, text="e2e")
+            else:
+                ctx.undecided(rule, f.short, detail, fi=f)
+    return w
+
+
+check_progress = with_e2e_fallback(check_progress)
+check_find_progress = with_e2e_fallback(check_find_progress)
+check_guard = with_e2e_fallback(check_guard)
+check_contain = with_e2e_fallback(check_contain)
+check_bound = with_e2e_fallback(check_bound)
+check_consume = with_e2e_fallback(check_consume)
+check_discard = with_e2e_fallback(check_discard)
+check_recover = with_e2e_fallback(check_recover)
+check_find = with_e2e_fallback(check_find)
+check_tags = with_e2e_fallback(check_tags)
